@@ -8,8 +8,8 @@ from vf.oracles import report_tok as T, report_spec as S, units_ref as UR
 from vf.checks.c01 import ADDON_GAIN
 
 PID = 'C09'
-SKIP_SECTIONS = ('CASE REPORT', 'HEADER', 'S-DAC-GT ECONOMICS')
-SKIP_TABLES = ('S-DAC-GT PROFILE',)
+SKIP_SECTIONS = ('CASE REPORT', 'HEADER')
+SKIP_TABLES = ()
 
 
 def at_hook(m, payload):
@@ -113,7 +113,7 @@ def post(obs, payload):
     shape = sorted(f'{s}/{l}' for s, l in seen)
     return {'fails': fails, 'sets': {**sets, 'labels_checked': [f'{s} / {l}' for s, l in sorted(seen)]}, 'counters': counters,
             'state': [shape, sorted(t.title for t in rep.tables), [len(t.rows) for t in rep.tables]], 'nontrivial': nlabels > 30,
-            'sample': {'family': payload.get('fam'), 'changes': payload.get('changes'), 'fields_checked': nlabels, 'tables': [t.title for t in rep.tables]}}
+            'sample': {'family': payload.get('fam') or payload.get('tag'), 'changes': payload.get('changes'), 'fields_checked': nlabels, 'tables': [t.title for t in rep.tables]}}
 
 
 def rpt_num(s):
@@ -143,12 +143,39 @@ STRUCT = [
     {'Total Capital Cost': '1000', 'Total O&M Cost': '100'},
     {'Total Capital Cost': '5', 'Total O&M Cost': '0.1', 'Starting Electricity Sale Price': '0.3', 'Ending Electricity Sale Price': '0.3',
      'Starting Heat Sale Price': '0.2', 'Ending Heat Sale Price': '0.2', 'Starting Cooling Sale Price': '0.2', 'Ending Cooling Sale Price': '0.2'},
+    {'Do S-DAC-GT Calculations': 'True'},
+    {'Do S-DAC-GT Calculations': 'True', 'S-DAC-GT CAPEX': '2000', 'S-DAC-GT OPEX': '200', 'S-DAC-GT Electrical Energy': '1000', 'S-DAC-GT Thermal Energy': '2000'},
     {'Production Tax Credit Electricity': '0.04', 'Production Tax Credit Heat': '0.5', 'Production Tax Credit Cooling': '0.5', 'Production Tax Credit Duration': '2'},
 ]
 
 
+EXAMPLES_QUICK = ['example1.txt', 'example2.txt', 'example3.txt', 'example4.txt', 'example5.txt', 'example8.txt', 'example9.txt', 'example10_HP.txt',
+                  'example11_AC.txt', 'example12_DH.txt', 'example13.txt', 'example1_addons.txt', 'example1_outputunits.txt', 'example_ITC.txt', 'example_PTC.txt',
+                  'example_multiple_gradients.txt', 'example_multiple_gradients-2.txt', 'example_overpressure.txt', 'example_overpressure2.txt', 'S-DAC-GT.txt',
+                  'example_SHR-1.txt', 'example_SHR-2.txt', 'SUTRAExample1.txt', 'Wanju_Yuan_Closed-Loop_Geothermal_Energy_Recovery.txt', 'example_SBT_Lo_T.txt']
+EXAMPLES_MORE = ['example_SBT_Hi_T.txt', 'Fervo_Norbeck_Latimer_2023.txt', 'Fervo_Project_Cape.txt', 'Fervo_Project_Cape-2.txt', 'Fervo_Project_Cape-3.txt']
+
+
+def example_payloads(tier):
+    import os
+    from vf.core import runner
+    out = []
+    for name in EXAMPLES_QUICK + (EXAMPLES_MORE if tier == 'thorough' else []):
+        path = os.path.join(runner.REPO, 'tests', 'examples', name)
+        if not os.path.exists(path):
+            continue
+        with open(path, encoding='UTF-8') as f:
+            lines = [l.rstrip('\n') for l in f]
+        out.append({'lines': lines, 'tag': 'example:' + name})
+        if name == 'SUTRAExample1.txt':     # the only runnable input of the SUTRA writer: a few cheap deviations on it
+            for extra in (['Economic Model, 1', 'Fixed Charge Rate, 0.08'], ['Economic Model, 2', 'Discount Rate, 0.11', 'Inflation Rate During Construction, 0.07'],
+                          ['Well Drilling and Completion Capital Cost, 4', 'Injection Well Drilling and Completion Capital Cost, 2.5', 'Circulation Pump Efficiency, 0.6']):
+                out.append({'lines': lines + extra, 'tag': 'example:' + name + '+' + extra[0]})
+    return out
+
+
 def plan(tier, seed):
-    P = []
+    P = example_payloads(tier)
     if tier == 'quick':
         shapes_all, extra_shapes = [(5, 3, 2)], [(2, 1, 1), (3, 4, 14), (30, 1, 1), (6, 2, 3)]
     else:
@@ -185,11 +212,11 @@ def run(tier, seed, budget=None):
     return e1.run_generic(
         sys.modules[__name__], PID, tier, seed, budget,
         rule=('every branch combination of the writer reached through inputs: 3 economic models x 32 end-use/plant pairs x 4 reservoir models, shapes '
-              'incl. lifetimes {2,3,5,6,30} (thorough: 1,12,100), construction years {1,2,3,14}, steps/yr {1,2,3,4} (thorough 12), and 14 structural deviations '
+              'incl. lifetimes {2,3,5,6,30} (thorough: 1,12,100), construction years {1,2,3,14}, steps/yr {1,2,3,4} (thorough 12), and 16 structural deviations '
               '(redrilling, fixed totals, ITC+grant, carbon, Ramey off, impedance, 3 segments, overpressure+split reservoir, per-well costs+piping, '
-              '200 wells x 500 kg/s, 1000 MUSD, fast payback, PTC) plus add-ons with 1 and 2 construction years. Every numeric field the tokeniser '
+              '200 wells x 500 kg/s, 1000 MUSD, fast payback, S-DAC-GT (2), PTC) plus add-ons with 1 and 2 construction years. Every numeric field the tokeniser '
               'finds is compared with report_spec at printed precision and unit; every table row/column against the snapshot series. Non-trivial = more '
               'than 30 fields checked; distinct = report shape (labels, tables, row counts). Unmodelled labels are listed, not claimed'),
-        assumptions=['S-DAC-GT block and profile are not modelled in report_spec (listed under unmodelled)',
+        assumptions=[
                      'lines that show a percent magnitude of a fraction are encoded as such (x100), their unit label is not judged',
                      'the total O&M line is held to mean annual O&M plus average purchased electricity for pumping and heat pump (pinned definition)'])
